@@ -80,6 +80,9 @@ def canon(roots, namer=lambda o: None, coarse=True, skip_attrs=()):
                     fields.append((slot, object.__getattribute__(o, slot)))
                 except AttributeError:
                     pass
+        if t is object:
+            # a bare sentinel: only its identity matters
+            return ('sentinel', memo[oid])
         if d is None and not fields and t.__module__ != 'builtins':
             # opaque extension object with no visible state
             return ('obj', t.__module__, t.__qualname__)
